@@ -5,8 +5,10 @@ package main
 
 import (
 	"fmt"
+	"go/constant"
 	"go/token"
 	"go/types"
+	"os"
 	"sort"
 	"strings"
 
@@ -1275,6 +1277,20 @@ func ruleStatusFileOnly(p *Prog, r *Report) {
 			}
 			r.add("R13.12", "status-file-only|"+fnDisplay(fn)+"|"+name, p.ipos(cs.In), fmt.Sprintf("%s in %s works on <basedir>/status/<device> (path constants %q)", name, fnDisplay(fn), c), ok,
 				"package status reads or writes another file than the device's status file")
+			// a status is replaced as a whole: a file opened for writing is truncated (or new)
+			if name == "os.OpenFile" && len(cs.In.Common().Args) >= 2 {
+				if fc, isC := cs.In.Common().Args[1].(*ssa.Const); isC && fc.Value != nil {
+					flags, _ := constant.Int64Val(constant.ToInt(fc.Value))
+					writes := flags&int64(os.O_WRONLY|os.O_RDWR) != 0
+					whole := flags&int64(os.O_TRUNC) != 0 || flags&int64(os.O_EXCL) != 0
+					if writes {
+						r.add("R13.12", "status-written-whole|"+fnDisplay(fn), p.ipos(cs.In), "a status file opened for writing is truncated or created exclusively", whole && flags&int64(os.O_APPEND) == 0,
+							"the new status is written over the old bytes: when it is shorter the tail of the old one stays behind it, the file no longer decodes, and the device counts as never approved")
+					}
+				} else {
+					r.fail("R13.12", "status-written-whole|"+fnDisplay(fn), p.ipos(cs.In), "the flags of os.OpenFile are a constant", "cannot tell whether the file is truncated")
+				}
+			}
 		}
 	}
 	r.floor("R13.12", "file operations of package status", n, 2)
